@@ -183,7 +183,9 @@ fn cell_lines(sec: &str, date: NaiveDate, c: &Cell, r: &Render, out: &mut Vec<Tr
             Fills::Halves | Fills::HalvesSeparated => {
                 let h = q.div(two);
                 // equal total consideration: h(p-d) + h(p+d) = q p ; d < p keeps prices positive
-                let d = if Rat::ONE.lt(p) { Rat::ONE } else { p.div(two) };
+                // (3/2, not 1: with integer fees the per-leg effect h*d of the price difference can then never equal the
+                // fee share f/2 and cancel it)
+                let d = if Rat::new(3, 2).lt(p) { Rat::new(3, 2) } else { p.div(two) };
                 // the fees go with the dearer fill, so the two fills never cost the same per share
                 out.push(mk(h, p.sub(d), Rat::ZERO));
                 if fills == Fills::HalvesSeparated {
